@@ -30,6 +30,42 @@ const client = "client-a"
 // hash selection for at_hash is exercised in the quick tier too
 var algs = []string{"RS256", "ES256", "PS256", "RS384", "RS512", "PS384", "PS512", "ES384", "ES512", "EdDSA"}
 
+// abbreviate keeps the human-readable record small (the Coq input has every byte).
+func abbreviate(s string) string {
+	if len(s) <= 120 {
+		return s
+	}
+	return s[:60] + "..." + s[len(s)-40:]
+}
+
+// atLabel is what the Coq input carries as at_value. The model never looks into
+// the access token (the hash oracle is given by the three real digests of the
+// FULL token, computed here with crypto/sha256 / sha512, not by the library), so
+// tokens above 2 KiB are labelled head...[len=N]...tail: a 64 KiB string literal
+// costs coqc about 4 s.
+func atLabel(s string) string {
+	if len(s) <= 2100 {
+		return s
+	}
+	return fmt.Sprintf("%s...[len=%d]...%s", s[:48], len(s), s[len(s)-24:])
+}
+
+// swapOneCase changes the case of the first letter of s (s itself if it has none).
+func swapOneCase(s string) string {
+	b := []byte(s)
+	for i, c := range b {
+		switch {
+		case c >= 'a' && c <= 'z':
+			b[i] = c - 32
+			return string(b)
+		case c >= 'A' && c <= 'Z':
+			b[i] = c + 32
+			return string(b)
+		}
+	}
+	return s + "A"
+}
+
 func halfHash(alg, at string) (half, full string) {
 	var sum []byte
 	// the hash named by the algorithm's suffix (HS* included); EdDSA: SHA-512
@@ -45,6 +81,312 @@ func halfHash(alg, at string) (half, full string) {
 		sum = s[:]
 	}
 	return base64.RawURLEncoding.EncodeToString(sum[:len(sum)/2]), base64.RawURLEncoding.EncodeToString(sum)
+}
+
+// atLengths is the access-token LENGTH dimension: empty, one byte, ordinary
+// opaque tokens, and sizes around 1 KiB, 2 KiB, 4 KiB and 64 KiB (JWT access
+// tokens with big keys / many claims): at_hash must cover every byte.
+var atLengths = []struct {
+	tag    string
+	n, wgt int
+}{
+	{"0", 0, 3}, {"1", 1, 3}, {"short", -1, 34},
+	{"1023", 1023, 6}, {"1024", 1024, 6}, {"1025", 1025, 8}, {"1100", 1100, 3},
+	{"2047", 2047, 2}, {"2048", 2048, 2}, {"2049", 2049, 3}, {"3000", 3000, 3},
+	{"4095", 4095, 4}, {"4096", 4096, 4}, {"4097", 4097, 5}, {"5000", 5000, 3}, {"8193", 8193, 3},
+	{"65535", 65535, 1}, {"65536", 65536, 2}, {"65537", 65537, 2}, {"70000", 70000, 1},
+}
+
+// accessToken draws an access token: the length class, then the alphabet
+// (hex, JWT-like base64url with dots, arbitrary bytes incl. NUL / >= 0x80).
+func accessToken(r drv.Rand) (at, lenTag, form string) {
+	tot := 0
+	for _, l := range atLengths {
+		tot += l.wgt
+	}
+	x := r.IntN(tot)
+	cls := atLengths[0]
+	for _, l := range atLengths {
+		if x < l.wgt {
+			cls = l
+			break
+		}
+		x -= l.wgt
+	}
+	n := cls.n
+	if n < 0 {
+		n = 12 + r.IntN(60)
+	}
+	b := make([]byte, n)
+	form = drv.Pick(r, []string{"hex", "hex", "hex", "jwt", "jwt", "bytes"})
+	if n > 9000 && form == "bytes" {
+		form = "hex" // keep the biggest Coq literals printable
+	}
+	const b64u = "ABCDEFGHIJKLMNOPQRSTUVWXYZabcdefghijklmnopqrstuvwxyz0123456789-_"
+	for i := range b {
+		switch form {
+		case "hex":
+			b[i] = "0123456789abcdef"[r.IntN(16)]
+		case "jwt":
+			b[i] = b64u[r.IntN(64)]
+		default:
+			b[i] = byte(r.IntN(256))
+		}
+	}
+	if form == "jwt" && n > 40 {
+		copy(b, "eyJhbGciOiJSUzI1NiJ9.")
+		b[n-n/3] = '.'
+	}
+	return string(b), cls.tag, form
+}
+
+// relatedToken derives ANOTHER access token from at: one that shares a long
+// prefix / suffix with it or differs in a single byte, in case or in surrounding
+// white space. An at_hash made for it must not validate at.
+func relatedToken(r drv.Rand, at string) (string, string) {
+	flip := func(i int) string {
+		b := []byte(at)
+		b[i] ^= 1 // stays printable for the printable alphabets
+		return string(b)
+	}
+	n := len(at)
+	hows := []string{"append", "append", "prepend", "space_after", "space_before", "newline_after"}
+	if n > 0 {
+		hows = append(hows, "drop_last", "drop_last", "drop_first", "flip_last", "flip_last", "flip_first", "flip_mid", "upper", "half")
+	}
+	if n > 1024 {
+		hows = append(hows, "first_1024", "first_1024", "first_1024", "flip_1024", "flip_1024", "append", "flip_last", "drop_last")
+	}
+	if n > 4096 {
+		hows = append(hows, "first_4096", "first_4096", "flip_4096")
+	}
+	how := drv.Pick(r, hows)
+	o := at
+	switch how {
+	case "append":
+		o = at + "x"
+	case "prepend":
+		o = "x" + at
+	case "space_after":
+		o = at + " "
+	case "space_before":
+		o = " " + at
+	case "newline_after":
+		o = at + "\n"
+	case "drop_last":
+		o = at[:n-1]
+	case "drop_first":
+		o = at[1:]
+	case "flip_last":
+		o = flip(n - 1)
+	case "flip_first":
+		o = flip(0)
+	case "flip_mid":
+		o = flip(n / 2)
+	case "upper":
+		o = strings.ToUpper(at)
+	case "half":
+		o = at[:n/2]
+	case "first_1024":
+		o = at[:1024]
+	case "flip_1024":
+		o = flip(1024)
+	case "first_4096":
+		o = at[:4096]
+	case "flip_4096":
+		o = flip(4096)
+	}
+	if o == at {
+		return at + "x", "append"
+	}
+	return o, how
+}
+
+// keywords: literal values that sloppy code drops or reinterprets; here they are
+// ordinary opaque strings and must be compared as such.
+var keywords = []string{"null", "NULL", "nil", "undefined", "true", "false", "0", "[]", "{}"}
+
+// nearMiss returns a string that differs from s only by case (ASCII or the
+// Unicode case folds of s / k), surrounding white space (raw, percent-encoded,
+// '+'), a trailing slash or a trailing NUL: exact comparison must tell them apart.
+func nearMiss(r drv.Rand, s string) (string, string) {
+	type nm struct{ how, v string }
+	c := []nm{
+		{"slash", s + "/"}, {"unslash", strings.TrimSuffix(s, "/")}, {"upper", strings.ToUpper(s)}, {"lower", strings.ToLower(s)},
+		{"onecase", swapOneCase(s)}, {"sp_before", " " + s}, {"sp_after", s + " "}, {"tab_after", s + "\t"}, {"lf_after", s + "\n"},
+		{"crlf_after", s + "\r\n"}, {"pct20", s + "%20"}, {"plus", s + "+"}, {"nul", s + "\x00"},
+		{"long_s", strings.Replace(s, "s", "ſ", 1)}, {"kelvin", strings.Replace(strings.Replace(s, "k", "K", 1), "K", "K", 1)},
+		{"x", s + "x"}, {"cut", s[:len(s)/2]},
+	}
+	// trailing slash and case are the classic "tolerant" comparisons: half of the draws
+	for i := 0; i < 8; i++ {
+		x := drv.Pick(r, c)
+		switch r.IntN(4) {
+		case 0:
+			x = c[r.IntN(2)] // slash / unslash
+		case 1:
+			x = c[2+r.IntN(3)] // upper / lower / one letter
+		}
+		if x.v != s {
+			return x.v, x.how
+		}
+	}
+	return s + "/", "slash"
+}
+
+// seqCase: ONE rp.IDTokenVerifier (one key set instance, endpoint steady) used
+// for 2-4 calls, VerifyIDToken and VerifyTokens mixed. The ID tokens come from a
+// family of genuinely signed tokens (full claims with an at_hash for access token
+// A0, other subject with an at_hash for A1, sparse claims without the optional
+// members, a second signer) or are recombinations header.payload.signature of
+// members; the access tokens are A0, A1 or a relative of A0 (common prefix ...).
+func seqCase(r drv.Rand, pool *tok.Pool, w *emit.Writer, ctx context.Context, i int) (ambiguous bool) {
+	alg1 := algs[i%len(algs)]
+	key1 := drv.Pick(r, pool.ForAlg(alg1))
+	alg2 := alg1
+	if r.Bool() {
+		alg2 = drv.Pick(r, algs)
+	}
+	key2 := pool.Other(r, key1, alg2)
+	if key2 == nil {
+		alg2 = drv.Pick(r, []string{"RS256", "PS384"})
+		key2 = pool.Other(r, key1, alg2)
+	}
+	ext := fmt.Sprintf("y%d", r.IntN(100000))
+	v := tok.VCfg{Issuer: issuer, Client: client, Offset: drv.Pick(r, []time.Duration{0, time.Second, -time.Second}),
+		MaxAge: drv.Pick(r, []time.Duration{0, 0, time.Hour}), Algs: []string{alg1}}
+	if alg2 != alg1 {
+		v.Algs = append(v.Algs, alg2)
+	}
+	nonce := ""
+	if r.Bool() {
+		nonce = "n-" + ext
+		v.Nonce = &nonce
+	}
+	if r.Chance(1, 4) {
+		l := []string{"gold", "silver"}
+		v.ACR = &l
+	}
+	j1 := tok.JWK{Kid: "k1", Use: "sig", Key: key1}
+	j2 := tok.JWK{Kid: "k2", Use: drv.Pick(r, []string{"sig", ""}), Key: key2}
+	ks := tok.KeySetDesc{Kind: "remote", Served: []tok.JWK{j1, j2}, Skip: r.Chance(1, 5)}
+	if r.Bool() {
+		ks.Cached = ks.Served
+	}
+	if r.Chance(1, 6) {
+		ks = tok.KeySetDesc{Kind: "static", Static: j1}
+	}
+	a0, len0, _ := accessToken(r)
+	a1, len1, _ := accessToken(r)
+	a0r, rel := relatedToken(r, a0)
+	ats := []string{a0, a1, a0r}
+	nowSec := time.Now().Unix()
+	h0, _ := halfHash(alg1, a0)
+	h1, _ := halfHash(alg1, a1)
+	h2, _ := halfHash(alg2, a0)
+	c0 := tok.Claims{Iss: issuer, Sub: "user-" + ext, Aud: []string{client, "api"}, Azp: client, Exp: nowSec + 3600, Iat: nowSec - 10, AuthT: nowSec - 60,
+		Nonce: nonce, Acr: "gold", AtHash: h0, Extra: ext, ClientID: client}
+	c1 := c0
+	c1.Sub, c1.AtHash, c1.Extra = "admin", h1, "evil"
+	c2 := tok.Claims{Iss: issuer, Sub: "user-3", Aud: []string{client}, Exp: nowSec + 1800, Iat: nowSec - 20, Nonce: nonce}
+	if v.MaxAge != 0 {
+		c2.AuthT = nowSec - 30
+	}
+	c3 := c0
+	c3.AtHash, c3.Sub = h2, "user-4"
+	opts := tok.PayloadOpts{ExtraKey: "ext", Reverse: r.Bool(), AudSingle: r.Bool()}
+	type ft struct {
+		t tok.Token
+		m tok.Middle
+	}
+	sign := func(key *tok.Key, alg, kid string, c tok.Claims) ft {
+		t, m := tok.Build(r, tok.BuildSpec{Signer: key, Alg: alg, Kid: kid, Claims: c, Payload: c.Payload(opts), Mut: "none"})
+		return ft{t, m}
+	}
+	fam := []ft{sign(key1, alg1, "k1", c0), sign(key1, alg1, "k1", c1), sign(key1, alg1, "k1", c2), sign(key2, alg2, "k2", c3)}
+
+	vv := rp.IDTokenVerifier(v.Verifier(ks.Build())) // the ONE verifier
+	n := 2 + r.IntN(3)
+	var steps, obs, hows []string
+	pan := ""
+	for st := 0; st < n && pan == ""; st++ {
+		var t tok.Token
+		var m tok.Middle
+		how := "genuine"
+		switch x := r.IntN(20); {
+		case x < 12 || (st == 0 && x < 17):
+			f := drv.Pick(r, fam)
+			t, m = f.t, f.m
+		case x < 19:
+			b, o := fam[r.IntN(3)], drv.Pick(r, fam)
+			if o.t.Raw == b.t.Raw {
+				o = fam[3]
+			}
+			switch r.IntN(3) {
+			case 0:
+				t, m = tok.Splice(o.t, b.t, b.m, b.t)
+				how = "swap_header"
+			case 1:
+				t, m = tok.Splice(b.t, o.t, o.m, b.t)
+				how = "swap_payload"
+			default:
+				t, m = tok.Splice(b.t, b.t, b.m, o.t)
+				how = "swap_signature"
+			}
+		default:
+			a, b, cc := drv.Pick(r, fam), drv.Pick(r, fam), drv.Pick(r, fam)
+			t, m = tok.Splice(a.t, b.t, b.m, cc.t)
+			how = "cross"
+		}
+		atk := emit.None
+		at, withAT := "", r.Chance(2, 3)
+		if withAT {
+			at = drv.Pick(r, ats)
+			h2 := sha256.Sum256([]byte(at))
+			h3 := sha512.Sum384([]byte(at))
+			h5 := sha512.Sum512([]byte(at))
+			atk = emit.Some(emit.Ctor("mkAT", emit.Str(atLabel(at)), emit.Bytes(h2[:]), emit.Bytes(h3[:]), emit.Bytes(h5[:])))
+			how += "+at"
+		}
+		hows = append(hows, how)
+		var out *oidc.IDTokenClaims
+		var err error
+		t0 := time.Now().UnixNano()
+		if withAT {
+			pan = drv.Catch(func() { out, err = rp.VerifyTokens[*oidc.IDTokenClaims](ctx, at, t.Raw, &vv) })
+		} else {
+			pan = drv.Catch(func() { out, err = rp.VerifyIDToken[*oidc.IDTokenClaims](ctx, t.Raw, &vv) })
+		}
+		t1 := time.Now().UnixNano()
+		if tok.TimeView(v, m.C, t0) != tok.TimeView(v, m.C, t1) {
+			ambiguous = true
+		}
+		if out != nil {
+			cl, a := tok.FromIDToken(out)
+			obs = append(obs, tok.Outcome(&cl, a, err))
+		} else {
+			obs = append(obs, tok.Outcome(nil, "", err))
+		}
+		steps = append(steps, emit.Ctor("mkIStep", t.Coq(), m.Coq(), atk, emit.Z(t0), emit.Z(t1)))
+	}
+	if ambiguous {
+		return true
+	}
+	o := emit.Ctor("OSeq", emit.List(obs))
+	if pan != "" {
+		o = "OPanic"
+	}
+	tags := []string{"call=sequence", fmt.Sprintf("steps=%d", n), "alg=" + alg1, "alg2=" + alg2, "keyset=" + ks.Kind, "atlen=" + len0, "atlen1=" + len1, "related=" + rel}
+	seen := map[string]bool{}
+	for _, h := range hows {
+		if !seen[h] {
+			seen[h] = true
+			tags = append(tags, "has_"+h+"=1")
+		}
+	}
+	w.Add(emit.Case{Input: emit.Ctor("IIDTokenSeq", v.Coq(), ks.Coq(), emit.List(steps)), Observed: o, Tags: tags,
+		Human: map[string]any{"steps": hows, "verifier": v}})
+	return false
 }
 
 // shardSize: thorough shards are kept small so that 16 coqc processes evaluating
@@ -67,6 +409,12 @@ func main() {
 	ctx := context.Background()
 
 	for i := 0; i < n; i++ {
+		if i%8 == 7 { // sequences on one verifier instance
+			if seqCase(r, pool, w, ctx, i/8) {
+				amb++
+			}
+			continue
+		}
 		alg := algs[i%len(algs)]
 		signer := drv.Pick(r, pool.ForAlg(alg))
 		// HMAC configuration end to end: HS* allowed, ID token MACed with a shared
@@ -78,25 +426,38 @@ func main() {
 		}
 		kid := drv.Pick(r, []string{"k1", "k1", "k2", ""})
 		ext := fmt.Sprintf("x%d", r.IntN(100000))
+		// configured issuer / client id: mostly the plain ones, sometimes values with a
+		// trailing slash, upper case, a space, a keyword or a non-ASCII letter - the
+		// token then carries exactly that value (accept side) or a near miss of it
+		issuer := drv.Pick(r, []string{issuer, issuer, issuer, issuer, issuer, issuer, issuer + "/", "https://OP.example.com", "https://op.example.com/Tenant", "https://op.example.com/tenant/"})
+		client := drv.Pick(r, []string{client, client, client, client, client, client, "Client-A", "client-a/", "client a", "null", "kelvin-\u212a", "\u017fervice"})
 
 		// ---- verifier options
 		v := tok.VCfg{Issuer: issuer, Client: client,
-			Offset: drv.Pick(r, []time.Duration{0, time.Second, time.Second, -time.Second, 5 * time.Second}),
+			Offset: drv.Pick(r, []time.Duration{0, time.Second, time.Second, -time.Second, 5 * time.Second, 30 * time.Second, 5 * time.Minute}),
 			MaxIAT: drv.Pick(r, []time.Duration{0, 0, time.Hour}),
 			MaxAge: drv.Pick(r, []time.Duration{0, 0, time.Hour})}
 		nonceWant := ""
-		switch r.IntN(4) {
+		switch r.IntN(5) {
 		case 0: // nil Nonce func
 		case 1:
 			e := "" // NewIDTokenVerifier's default: expects the empty nonce
 			v.Nonce = &e
+		case 2: // a keyword-like literal is an ordinary nonce
+			nv := drv.Pick(r, keywords)
+			v.Nonce = &nv
+			nonceWant = nv
 		default:
 			nv := "n-" + ext
 			v.Nonce = &nv
 			nonceWant = nv
 		}
+		acrs := []string{"gold", "silver"}
 		if r.Chance(1, 3) {
-			l := []string{"gold", "silver"}
+			if r.Chance(1, 4) {
+				acrs = []string{drv.Pick(r, keywords), "1"}
+			}
+			l := acrs
 			v.ACR = &l
 		}
 		switch r.IntN(5) {
@@ -115,25 +476,44 @@ func main() {
 		// ---- all-correct claims, times with comfortable margins
 		nowSec := time.Now().Unix()
 		c := tok.Claims{Iss: issuer, Sub: "user-" + ext, Aud: []string{client}, Exp: nowSec + 3600, Iat: nowSec - 10,
-			AuthT: nowSec - 60, Nonce: nonceWant, Acr: "gold", Extra: ext, ClientID: client}
+			AuthT: nowSec - 60, Nonce: nonceWant, Acr: acrs[0], Extra: ext, ClientID: client}
+		if r.Chance(1, 12) {
+			c.Sub = drv.Pick(r, keywords) // an ordinary, non-empty subject
+		}
 		if r.Chance(1, 3) {
 			c.Azp = client
 		}
 		if r.Chance(1, 4) { // several audiences, azp present
-			c.Aud = drv.Pick(r, [][]string{{client, "api"}, {"api", client}, {"api", client, "other"}})
+			c.Aud = drv.Pick(r, [][]string{{client, "api"}, {"api", client}, {"api", client, "other"}, {strings.ToUpper(client), client}, {client + "/", client, " " + client}})
 			c.Azp = client
 		}
-		at := "at-" + fmt.Sprintf("%x", r.Bytes(6+r.IntN(20)))
-		withAT := r.Bool()
+		at, atLen, atForm := accessToken(r)
+		withAT := r.Chance(3, 5)
 		half, full := halfHash(alg, at)
-		if withAT && r.Chance(2, 3) {
+		if withAT && r.Chance(3, 4) {
 			c.AtHash = half
 		}
 
 		// ---- mutate k claim dimensions
 		var tags []string
 		k := drv.Pick(r, []int{0, 0, 0, 0, 0, 0, 0, 1, 1, 1, 1, 1, 1, 1, 1, 2, 2, 2, 2, 3})
-		dims := []string{"iss", "sub", "aud", "azp", "exp", "exp", "iat", "iat", "nonce", "acr", "auth_time", "auth_time", "at_hash"}
+		dims := []string{"iss", "iss", "sub", "aud", "azp", "azp", "exp", "exp", "iat", "iat", "nonce", "acr", "auth_time", "auth_time", "at_hash"}
+		// a configured option makes its claim dimension worth more draws
+		if v.MaxIAT != 0 {
+			dims = append(dims, "iat", "iat", "iat")
+		}
+		if v.MaxAge != 0 {
+			dims = append(dims, "auth_time", "auth_time", "auth_time")
+		}
+		if v.ACR != nil {
+			dims = append(dims, "acr", "acr")
+		}
+		if v.Nonce != nil {
+			dims = append(dims, "nonce")
+		}
+		if withAT {
+			dims = append(dims, "at_hash", "at_hash")
+		}
 		done := map[string]bool{}
 		for j := 0; j < k; j++ {
 			d := drv.Pick(r, dims)
@@ -144,21 +524,28 @@ func main() {
 			val := ""
 			switch d {
 			case "iss":
-				val = drv.Pick(r, []string{"absent", "wrong", "near"})
-				c.Iss = map[string]string{"absent": "", "wrong": "https://evil.example.com", "near": issuer + "/"}[val]
+				val = drv.Pick(r, []string{"absent", "wrong", "near", "near", "near"})
+				c.Iss = map[string]string{"absent": "", "wrong": "https://evil.example.com"}[val]
+				if val == "near" {
+					c.Iss, val = nearMiss(r, issuer)
+					val = "near_" + val
+				}
 			case "sub":
 				val = "absent"
 				c.Sub = ""
 			case "aud":
-				val = drv.Pick(r, []string{"absent", "wrong", "near", "multi_noazp", "multi_other_first"})
+				val = drv.Pick(r, []string{"absent", "wrong", "near", "near", "multi_noazp", "multi_other_first"})
 				switch val {
 				case "absent":
 					c.Aud = nil
 				case "wrong":
 					c.Aud = []string{"someone-else"}
 				case "near":
-					c.Aud = []string{client + "x", "Client-a"}
+					n1, how := nearMiss(r, client)
+					n2, _ := nearMiss(r, client)
+					c.Aud = []string{n1, n2}
 					c.Azp = client
+					val = "near_" + how
 				case "multi_noazp":
 					c.Aud = []string{client, "api"}
 					c.Azp = ""
@@ -167,12 +554,13 @@ func main() {
 					c.Azp = client
 				}
 			case "azp":
-				val = drv.Pick(r, []string{"wrong", "near", "absent_single", "wrong_multi"})
+				val = drv.Pick(r, []string{"wrong", "near", "near", "absent_single", "wrong_multi"})
 				switch val {
 				case "wrong":
 					c.Azp = "someone-else"
 				case "near":
-					c.Azp = client + " "
+					c.Azp, val = nearMiss(r, client)
+					val = "near_" + val
 				case "absent_single":
 					c.Aud = []string{client}
 					c.Azp = ""
@@ -184,41 +572,69 @@ func main() {
 				dl := drv.Pick(r, []int64{-3600, -2, -1, 0, 1, 2, 3})
 				val = fmt.Sprintf("d%d", dl)
 				c.Exp = nowSec + offS + dl
+				if offS != 0 && r.Chance(1, 4) { // the boundary a sign error / a forgotten offset would use
+					o2 := drv.Pick(r, []int64{-offS, 0, offS / 2})
+					val = fmt.Sprintf("o%d_d%d", o2, dl)
+					c.Exp = nowSec + o2 + dl
+				}
 				if r.Chance(1, 8) {
 					val = "absent"
 					c.Exp = 0
 				}
 			case "iat":
-				if v.MaxIAT != 0 && r.Bool() {
+				if v.MaxIAT != 0 && r.Chance(2, 3) {
 					dl := drv.Pick(r, []int64{-3, -2, -1, 0, 1, 2})
 					val = fmt.Sprintf("old%d", dl)
 					c.Iat = nowSec - 3600 + dl
+					if offS != 0 && r.Bool() { // inside / at the ends of the window an offset-widened bound would open
+						o2 := drv.Pick(r, []int64{-offS, -offS, offS, -offS / 2})
+						val = fmt.Sprintf("old_o%d_d%d", o2, dl)
+						c.Iat = nowSec - 3600 + o2 + dl
+					}
 				} else {
 					dl := drv.Pick(r, []int64{-3, -2, -1, 0, 1, 2, 3, 3600})
 					val = fmt.Sprintf("d%d", dl)
 					c.Iat = nowSec + offS + dl
+					if offS != 0 && r.Chance(1, 4) {
+						o2 := drv.Pick(r, []int64{-offS, 0, offS / 2, 2 * offS})
+						val = fmt.Sprintf("o%d_d%d", o2, dl)
+						c.Iat = nowSec + o2 + dl
+					}
 				}
 				if r.Chance(1, 8) {
 					val = "absent"
 					c.Iat = 0
 				}
 			case "nonce":
-				val = drv.Pick(r, []string{"absent", "wrong", "near"})
-				c.Nonce = map[string]string{"absent": "", "wrong": "other-nonce", "near": nonceWant + "x"}[val]
+				val = drv.Pick(r, []string{"absent", "wrong", "near", "near", "keyword"})
+				c.Nonce = map[string]string{"absent": "", "wrong": "other-nonce", "keyword": drv.Pick(r, keywords)}[val]
+				if val == "near" {
+					c.Nonce, val = nearMiss(r, nonceWant)
+					val = "near_" + val
+				}
 			case "acr":
-				val = drv.Pick(r, []string{"absent", "wrong", "other_ok"})
-				c.Acr = map[string]string{"absent": "", "wrong": "bronze", "other_ok": "silver"}[val]
+				val = drv.Pick(r, []string{"absent", "wrong", "other_ok", "near", "near"})
+				c.Acr = map[string]string{"absent": "", "wrong": "bronze", "other_ok": acrs[1]}[val]
+				if val == "near" {
+					c.Acr, val = nearMiss(r, acrs[0])
+					val = "near_" + val
+				}
 			case "auth_time":
-				if v.MaxAge != 0 && r.Chance(2, 3) {
+				if v.MaxAge != 0 && r.Chance(1, 2) {
 					dl := drv.Pick(r, []int64{-3, -2, -1, 0, 1, 2})
 					val = fmt.Sprintf("old%d", dl)
 					c.AuthT = nowSec - 3600 + dl
+					if offS != 0 && r.Chance(1, 3) {
+						o2 := drv.Pick(r, []int64{-offS, offS})
+						val = fmt.Sprintf("old_o%d_d%d", o2, dl)
+						c.AuthT = nowSec - 3600 + o2 + dl
+					}
 				} else {
 					val = drv.Pick(r, []string{"absent", "veryold", "future"})
 					c.AuthT = map[string]int64{"absent": 0, "veryold": nowSec - 86400, "future": nowSec + 600}[val]
 				}
 			case "at_hash":
-				val = drv.Pick(r, []string{"absent", "wrong", "full", "other_token", "other_alg"})
+				val = drv.Pick(r, []string{"absent", "wrong", "full", "other_token", "other_token", "other_token", "other_alg", "case", "padded", "space", "cut"})
 				switch val {
 				case "absent":
 					c.AtHash = ""
@@ -227,7 +643,18 @@ func main() {
 				case "full":
 					c.AtHash = full
 				case "other_token":
-					c.AtHash, _ = halfHash(alg, at+"x")
+					// the at_hash of a RELATED token (common prefix / suffix, one byte, case, white space)
+					o, how := relatedToken(r, at)
+					c.AtHash, _ = halfHash(alg, o)
+					val = "other_" + how
+				case "case": // same letters, one of them in the other case
+					c.AtHash = swapOneCase(half)
+				case "padded":
+					c.AtHash = half + "="
+				case "space":
+					c.AtHash = drv.Pick(r, []string{half + " ", " " + half, half + "\n"})
+				case "cut":
+					c.AtHash = half[:len(half)-1]
 				default:
 					oa := "RS512"
 					if strings.HasSuffix(alg, "512") || alg == "EdDSA" {
@@ -247,7 +674,9 @@ func main() {
 			case "right":
 				c.AtHash = half
 			case "other_token":
-				c.AtHash, _ = halfHash(alg, at+"x")
+				o, how := relatedToken(r, at)
+				c.AtHash, _ = halfHash(alg, o)
+				val = "other_" + how
 			default:
 				c.AtHash = "AAAA" + half[4:]
 			}
@@ -279,6 +708,20 @@ func main() {
 		mut := "none"
 		evil := c
 		evil.Sub = "attacker"
+		psize := "small"
+		if r.Chance(1, 16) { // ID token payload beyond 1 KiB / 4 KiB; the alternative differs in the last character only
+			nb := drv.Pick(r, []int{1100, 1100, 4200})
+			b := make([]byte, nb)
+			for x := range b {
+				b[x] = "0123456789abcdef"[r.IntN(16)]
+			}
+			c.Extra = string(b)
+			evil = c
+			b[nb-1] ^= 1
+			evil.Extra = string(b)
+			psize = "long"
+		}
+		tags = append(tags, "payload_size="+psize)
 		if r.Chance(1, 8) {
 			sigTag = drv.Pick(r, []string{"wrongkey", "alg_not_allowed", "absent_key", "ambiguous", "mut", "mut", "mut", "benign", "benign"})
 			if ks.Kind == "static" && (sigTag == "absent_key" || sigTag == "ambiguous") {
@@ -373,8 +816,9 @@ func main() {
 			h2 := sha256.Sum256([]byte(at))
 			h3 := sha512.Sum384([]byte(at))
 			h5 := sha512.Sum512([]byte(at))
-			atk = emit.Some(emit.Ctor("mkAT", emit.Str(at), emit.Bytes(h2[:]), emit.Bytes(h3[:]), emit.Bytes(h5[:])))
+			atk = emit.Some(emit.Ctor("mkAT", emit.Str(atLabel(at)), emit.Bytes(h2[:]), emit.Bytes(h3[:]), emit.Bytes(h5[:])))
 			call = "tokens"
+			tags = append(tags, "atlen="+atLen, "atform="+atForm)
 		}
 		tags = append(tags, "call="+call, fmt.Sprintf("offset=%d", offS), fmt.Sprintf("maxiat=%d", int64(v.MaxIAT/time.Second)), fmt.Sprintf("maxage=%d", int64(v.MaxAge/time.Second)))
 		if mut == "payload_null" {
@@ -385,7 +829,7 @@ func main() {
 		}
 		in := emit.Ctor("IIDToken", v.Coq(), ks.Coq(), t.Coq(), m.Coq(), atk, emit.Z(t0), emit.Z(t1))
 		w.Add(emit.Case{Input: in, Observed: obs, Tags: tags,
-			Human: map[string]any{"token": t.Raw, "access_token": at, "claims": c, "verifier": v}})
+			Human: map[string]any{"token": t.Raw, "access_token": abbreviate(at), "access_token_len": len(at), "claims": c, "verifier": v}})
 	}
 	err := w.Close(emit.Meta{Property: "C01", Tier: cfg.Tier, Seed: cfg.Seed,
 		Rule:  "flow first: an all-correct ID token (claims with margins, really signed with a swept algorithm, key published in a remote key set) for a random verifier configuration (offset 0/1s/-1s/5s, max iat age, max auth age, nonce nil/empty/fixed, acr list, allow-list), then 0-3 claim dimensions mutated (absent / wrong / near miss; times at -3..+3 s around each boundary incl. offset and max ages), 1/8 with a signature-level mutation; half through rp.VerifyTokens with at_hash correct / absent / wrong / full hash / other token / other hash. Non-trivial = model path != 0 (anything but a ParseToken reject); distinct = distinct input term.",
